@@ -16,7 +16,7 @@ Proof.
   - destruct (over qe ue); [discriminate|]. inversion H; subst. cbn. auto.
 Qed.
 
-Lemma admit_disk : forall s o s1, admit s o = Some s1 -> disk s1 = disk s /\ wal s1 = wal s.
+Lemma gate_disk : forall s o s1, gate s o = Some s1 -> disk s1 = disk s /\ wal s1 = wal s.
 Proof.
   intros s o s1 H. destruct o; cbn in H;
     try (apply reserve_disk in H; exact H);
@@ -55,11 +55,11 @@ Qed.
 Lemma op_cases : forall s o,
   (exists rs, o = Reopen rs /\ run_op s o = (reopen s rs, true) /\ forall d, crash_in s o d = None) \/
   (exists w, wentry_of o = Some w /\
-     run_op s o = match admit s o with
+     run_op s o = match gate s o with
                   | None => (s, false)
                   | Some s1 => (settle (disk s) (durable_steps 2 s1 o) o, true)
                   end /\
-     forall d, crash_in s o d = match admit s o with
+     forall d, crash_in s o d = match gate s o with
                                 | None => None
                                 | Some s1 => Some (durable_steps d s1 o)
                                 end).
@@ -74,9 +74,9 @@ Lemma run_op_disk : forall s o s' a, run_op s o = (s', a) ->
 Proof.
   intros s o s' a H. destruct (op_cases s o) as [[rs [-> [Hr _]]]|[w [Hw [Hr _]]]]; rewrite Hr in H.
   - injection H as <- <-. cbn [effect]. apply reopen_disk.
-  - destruct (admit s o) as [s1|] eqn:Ea; injection H as <- <-; [|reflexivity].
+  - destruct (gate s o) as [s1|] eqn:Ea; injection H as <- <-; [|reflexivity].
     rewrite (proj1 (settle_disk _ _ _)), durable_steps_disk. cbn [Nat.leb].
-    rewrite (proj1 (admit_disk _ _ _ Ea)). reflexivity.
+    rewrite (proj1 (gate_disk _ _ _ Ea)). reflexivity.
 Qed.
 
 Lemma run_disk : forall ops s s' acks, run s ops = (s', acks) ->
@@ -118,10 +118,10 @@ Theorem crash_spec : forall rs ops i d o s1 acks s2,
   disk s2 = spec (acked (firstn i ops) acks ++ [o]).
 Proof.
   intros rs ops i d o s1 acks s2 Hrun _ Hc. pose proof (run_spec _ _ _ _ Hrun) as Hs.
-  assert (H : exists s', admit s1 o = Some s' /\ s2 = durable_steps d s' o).
+  assert (H : exists s', gate s1 o = Some s' /\ s2 = durable_steps d s' o).
   { destruct (op_cases s1 o) as [[rs0 [-> [_ Hn]]]|[w [_ [_ Hn]]]]; rewrite Hn in Hc; [discriminate|].
-    destruct (admit s1 o) as [s'|]; [|discriminate]. injection Hc as <-. eexists; split; reflexivity. }
-  destruct H as [s' [Ea ->]]. rewrite durable_steps_disk, (proj1 (admit_disk _ _ _ Ea)), spec_snoc, <- Hs.
+    destruct (gate s1 o) as [s'|]; [|discriminate]. injection Hc as <-. eexists; split; reflexivity. }
+  destruct H as [s' [Ea ->]]. rewrite durable_steps_disk, (proj1 (gate_disk _ _ _ Ea)), spec_snoc, <- Hs.
   destruct (Nat.leb 2 d); auto.
 Qed.
 
@@ -146,10 +146,10 @@ Theorem crash_atomic : forall s1 o d s2, crash_in s1 o d = Some s2 ->
   disk s2 = if Nat.leb 2 d then effect (disk s1) o else disk s1.
 Proof.
   intros s1 o d s2 Hc.
-  assert (H : exists s', admit s1 o = Some s' /\ s2 = durable_steps d s' o).
+  assert (H : exists s', gate s1 o = Some s' /\ s2 = durable_steps d s' o).
   { destruct (op_cases s1 o) as [[rs0 [-> [_ Hn]]]|[w [_ [_ Hn]]]]; rewrite Hn in Hc; [discriminate|].
-    destruct (admit s1 o) as [s'|]; [|discriminate]. injection Hc as <-. eexists; split; reflexivity. }
-  destruct H as [s' [Ea ->]]. rewrite durable_steps_disk, (proj1 (admit_disk _ _ _ Ea)). reflexivity.
+    destruct (gate s1 o) as [s'|]; [|discriminate]. injection Hc as <-. eexists; split; reflexivity. }
+  destruct H as [s' [Ea ->]]. rewrite durable_steps_disk, (proj1 (gate_disk _ _ _ Ea)). reflexivity.
 Qed.
 
 (* the log has one entry per acknowledged operation, in order (write-ahead: the entry is
@@ -165,9 +165,9 @@ Lemma run_op_wal : forall s o s' a, run_op s o = (s', a) ->
 Proof.
   intros s o s' a H. destruct (op_cases s o) as [[rs [-> [Hr _]]]|[w [Hw [Hr _]]]]; rewrite Hr in H.
   - injection H as <- <-. cbn. rewrite app_nil_r. apply reopen_disk.
-  - destruct (admit s o) as [s1|] eqn:Ea; injection H as <- <-; [|rewrite app_nil_r; reflexivity].
+  - destruct (gate s o) as [s1|] eqn:Ea; injection H as <- <-; [|rewrite app_nil_r; reflexivity].
     rewrite (proj2 (settle_disk _ _ _)). unfold durable_steps. rewrite Hw. cbn [entries]. rewrite Hw.
-    cbn. rewrite (proj2 (admit_disk _ _ _ Ea)). reflexivity.
+    cbn. rewrite (proj2 (gate_disk _ _ _ Ea)). reflexivity.
 Qed.
 
 Lemma entries_app : forall a b, entries (a ++ b) = entries a ++ entries b.
